@@ -215,8 +215,9 @@ class Survey:
         inp = {k: v for k, v in inp.items() if k != '__class__'}
         inp['sources'] = {k: getattr(electrodes, v['__class__']).from_dict(v)
                           for k, v in inp['sources'].items()}
+        # An empty `receivers` dict does not survive the npz flattening.
         inp['receivers'] = {k: getattr(electrodes, v['__class__']).from_dict(v)
-                            for k, v in inp['receivers'].items()}
+                            for k, v in inp.get('receivers', {}).items()}
         return cls(**inp)
 
     def to_file(self, fname, name='survey', **kwargs):
@@ -290,8 +291,12 @@ class Survey:
 
         # Create Dataset, add all data as DataArrays.
         dims = ('src', 'rec', 'freq')
+        # Arrays without elements lose their trailing axes in JSON files
+        # ((nsrc, 0, nfreq) comes back as (nsrc, 0)): restore the shape.
         self._data = xarray.Dataset(
-            {k: xarray.DataArray(v, dims=dims) for k, v in data.items()},
+            {k: xarray.DataArray(
+                v if np.size(v) else np.reshape(v, shape), dims=dims)
+             for k, v in data.items()},
             coords={'src': list(self.sources.keys()),
                     'rec': list(self.receivers.keys()),
                     'freq': list(self.frequencies)},
